@@ -58,12 +58,53 @@ def plan(tier, seed):
     return shards
 
 
-def check_code(co, acc, origin, ver):
+def _find_code(origin):
+    path, qual, line = origin.rsplit(":", 2)
+    for co in corpus.code_objects_of_file(path):
+        if co.co_qualname == qual and str(co.co_firstlineno) == line:
+            return co
+    return None
+
+
+def fault_prefix(co, acc, origin, after_refused, inject):
+    """Fault histories: right before the graph of `co` is built and checked,
+    (natural) a code object outside the property's domain (exception table,
+    raise, generator) is handed to the front end, whatever it answers, and/or
+    (injected, 3.12 only) a build of `co` itself is aborted by an exception
+    raised at a random library call."""
+    from numba_scfg.core.datastructures.byte_flow import ByteFlow
+
+    if after_refused is not None:
+        bad = after_refused if not isinstance(after_refused, str) else _find_code(after_refused)
+        if bad is not None:
+            try:
+                ByteFlow.from_bytecode(bad)
+                acc.counters["M-fault.out_of_domain_code_accepted"] += 1
+            except Exception:
+                acc.counters["M-fault.natural_refusals"] += 1
+    if inject and hasattr(sys, "monitoring"):
+        import random
+
+        from ..monitors import fault
+
+        fctx = core.Ctx(None)
+        rng = random.Random(core.sha([origin, "fault"]))
+        fault.inject_around(fctx, rng, lambda: ByteFlow.from_bytecode(co), 1, cold_key="C09")
+        acc.counters.update(fctx.counters)
+
+
+def check_code(co, acc, origin, ver, after_refused=None, inject=False):
     from numba_scfg.core.datastructures.byte_flow import ByteFlow
     from ..oracles.bytecode import check_byteflow
 
     ctx = core.Ctx(origin)
     case = {"kind": "code", "origin": origin, "python": ver}
+    if after_refused is not None or inject:
+        fault_prefix(co, acc, origin, after_refused, inject)
+        acc.counters["cases_run_after_faults"] += 1
+        if after_refused is not None:
+            case["after_refused"] = after_refused if isinstance(after_refused, str) else None
+        case["inject"] = bool(inject)
     ctx.hit("oracle.C09.static")
     njump = 0
     for i in dis.get_instructions(co):
@@ -119,13 +160,20 @@ def run_shard(spec):
     ver = "%d.%d" % sys.version_info[:2]
     acc.counters["interpreter." + ver] += 0
     if spec["kind"] == "stdlib":
+        last_bad = None
+        n_el = 0
         for path, co in corpus.stdlib_code_shard(spec["shard"], spec["nshards"],
                                                 spec.get("limit_files")):
             acc.counters["code_objects_seen." + ver] += 1
+            org = f"{path}:{co.co_qualname}:{co.co_firstlineno}"
             if not corpus.eligible(co):
+                last_bad = org
                 continue
             acc.counters["eligible." + ver] += 1
-            check_code(co, acc, f"{path}:{co.co_qualname}:{co.co_firstlineno}", ver)
+            n_el += 1
+            bad = last_bad if n_el % 2 == 0 else None
+            last_bad = None if bad else last_bad
+            check_code(co, acc, org, ver, after_refused=bad, inject=(n_el % 5 == 0))
     elif spec["kind"] == "dynamic":
         from . import c09dyn
         c09dyn.run(spec, acc, ver)
@@ -135,7 +183,8 @@ def run_shard(spec):
             path, qual, line = case["origin"].rsplit(":", 2)
             for co in corpus.code_objects_of_file(path):
                 if co.co_qualname == qual and str(co.co_firstlineno) == line:
-                    check_code(co, acc, case["origin"], ver)
+                    check_code(co, acc, case["origin"], ver, after_refused=case.get("after_refused"),
+                               inject=case.get("inject", False))
         else:
             from . import c09dyn
             c09dyn.run_single(case, acc, ver)
